@@ -876,6 +876,28 @@ func checkProperty(prop, tier string, seed uint64, runs, budget, workers int, re
 		"exhaustive":             false,
 		"tree":                   hashTree(),
 	}
+	// the seams of the instrumented copy, as counted by the instrumenter on THIS tree
+	if len(bi.Report) > 0 {
+		var rep struct {
+			MapSites   []string `json:"map_range_sites_rewritten"`
+			Refused    []string `json:"map_range_sites_refused"`
+			LockSites  []string `json:"lock_types_replaced"`
+			IOSites    []string `json:"file_system_calls_wrapped"`
+			Points     int      `json:"preemption_points_inserted"`
+			ClockSites []string `json:"clock_reads_replaced"`
+		}
+		if json.Unmarshal(bi.Report, &rep) == nil {
+			cov["seams"] = map[string]any{
+				"map_iteration_sites_owned":   len(rep.MapSites),
+				"map_iteration_sites_refused": len(rep.Refused),
+				"lock_types_replaced":         len(rep.LockSites),
+				"file_system_calls_wrapped":   len(rep.IOSites),
+				"preemption_points_inserted":  rep.Points,
+				"clock_reads_replaced":        len(rep.ClockSites),
+				"stubbed":                     "map iteration order (verifrt.Keys), sync.RWMutex/Mutex (wrapper around the real mutex), time.Now (simulated clock: steady/jumping/stuck), os and zip.Writer calls (pass-through wrappers that can yield or fail); everything else is the library's real code",
+			}
+		}
+	}
 	if len(samples) == 0 {
 		cov["samples"] = []any{"(every explored case ended in a violation or known finding; see replays)"}
 	}
